@@ -37,7 +37,7 @@ def from_float(x):
     return rat(int(fr.p), int(fr.q))
 
 
-FUN1 = {"sqrt": "sqrt", "tanh": "tanh", "coth": "coth", "cosh": "cosh", "sinh": "sinh",
+FUN1 = {"exp": "exp", "ln": "log", "sin": "sin", "cos": "cos", "sqrt": "sqrt", "tanh": "tanh", "coth": "coth", "cosh": "cosh", "sinh": "sinh",
         "sympy_sqrt": "sqrt", "sympy_tanh": "tanh", "sympy_coth": "coth", "sympy_cosh": "cosh", "sympy_sinh": "sinh"}
 
 
@@ -78,6 +78,8 @@ def py2e(node, env):
         # `x1.expr` / `x1.impedances` of a Subcircuit record: the sub-circuit's impedance
         name = RENAME.get(node.value.id, node.value.id)
         return f'(.var "{name}")'
+    if isinstance(node, ast.IfExp) and ("?" + ast.unparse(node.test)) in env:
+        return py2e(node.body if env["?" + ast.unparse(node.test)] else node.orelse, env)
     if isinstance(node, ast.Subscript) and isinstance(node.value, ast.Name) and isinstance(node.slice, ast.Constant) and f"{node.value.id}[{node.slice.value}]" in env:
         return env[f"{node.value.id}[{node.slice.value}]"]
     if isinstance(node, ast.Name):
@@ -372,6 +374,62 @@ def translate_fit(out, names_out, untranslatable):
         untranslatable.append({"what": "fitting kernels", "detail": str(ex)})
 
 
+def translate_drt(out, names_out, untranslatable):
+    """C13: the entries of the TR-NNLS matrix (real / imaginary mode), the peak extraction of the Loewner method and
+    the analytic distributions of m(RQ)fit."""
+    import pyimpspec.analysis.drt.tr_nnls as TR
+    import pyimpspec.analysis.drt.lm as LM
+    import pyimpspec.analysis.drt.mrq_fit as MF
+    try:
+        # ---- TR-NNLS
+        fn = ast.parse(textwrap.dedent(inspect.getsource(TR._generate_A_matrix))).body[0]
+        prod = [st for st in ast.walk(fn) if isinstance(st, ast.Assign) and isinstance(st.targets[0], ast.Name) and st.targets[0].id == "product"]
+        row = [st for st in ast.walk(fn) if isinstance(st, ast.Assign) and isinstance(st.targets[0], ast.Subscript) and ast.unparse(st.targets[0]) == "A[i, :]"]
+        if len(prod) != 1 or ast.unparse(prod[0].value) != "omega[i] * tau" or len(row) != 1:
+            raise Untranslatable("_generate_A_matrix: expected `product = omega[i] * tau` and one assignment to `A[i, :]`")
+        env = {"product": '(.mul (.var "omega") (.var "tau"))'}
+        out.append(f"/-- `_generate_A_matrix`, entry (i, k), real mode -/\ndef trnnls_A_re : E := {py2e(row[0].value, dict(env, **{'?is_imaginary': False}))}")
+        out.append(f"/-- `_generate_A_matrix`, entry (i, k), imaginary mode -/\ndef trnnls_A_im : E := {py2e(row[0].value, dict(env, **{'?is_imaginary': True}))}")
+        fn = ast.parse(textwrap.dedent(inspect.getsource(TR._generate_b_vector))).body[0]
+        ret = [n for n in ast.walk(fn) if isinstance(n, ast.Return)]
+        if len(ret) != 1 or ast.unparse(ret[0].value) != "A.T @ (-Z_norm.imag if is_imaginary else Z_norm.real)":
+            raise Untranslatable("_generate_b_vector: expected `A.T @ (-Z_norm.imag if is_imaginary else Z_norm.real)`")
+        fn = ast.parse(textwrap.dedent(inspect.getsource(TR._normalize_impedance))).body[0]
+        got = [ast.unparse(st) for st in fn.body if not isinstance(st, ast.Return)]
+        want = ["R_inf: float = Z[0].real", "Z_norm: ComplexImpedances = Z - R_inf", "R_pol: float = Z_norm[-1].real - Z_norm[0].real", "Z_norm /= R_pol"]
+        if got != want:
+            raise Untranslatable(f"_normalize_impedance: statements differ from the modelled ones: {got}")
+        names_out.extend(["trnnls_A", "trnnls_b(shape)", "trnnls_normalize(shape)"])
+        # ---- Loewner method
+        fn = ast.parse(textwrap.dedent(inspect.getsource(LM._extract_peaks))).body[0]
+        env = {"eigenvalues": '(.var "lambda")', "residues": '(.var "residue")'}
+        found = {}
+        for st in ast.walk(fn):
+            if isinstance(st, ast.AnnAssign) and isinstance(st.target, ast.Name) and st.target.id in ("time_constants", "gammas") and st.value is not None:
+                found[st.target.id] = py2e(st.value, env)
+        res = [ast.unparse(st.value) for st in ast.walk(fn) if isinstance(st, ast.AnnAssign) and isinstance(st.target, ast.Name) and st.target.id == "residues"]
+        if set(found) != {"time_constants", "gammas"} or res != ["Bt * Ct.T"]:
+            raise Untranslatable("_extract_peaks: expected assignments to time_constants, gammas and residues = Bt * Ct.T")
+        out.append(f"/-- `_extract_peaks`: time constant of one pole -/\ndef lm_tau : E := {found['time_constants']}")
+        out.append(f"/-- `_extract_peaks`: gamma of one pole -/\ndef lm_gamma : E := {found['gammas']}")
+        names_out.append("lm_peaks")
+        # ---- m(RQ)fit
+        fn = ast.parse(textwrap.dedent(inspect.getsource(MF._calculate_tau_gamma))).body[0]
+        ifs = [st for st in ast.walk(fn) if isinstance(st, ast.If) and ast.unparse(st.test) == "isclose(abs(n), 1.0, atol=0.01)"]
+        t0 = [ast.unparse(st.value) for st in ast.walk(fn) if isinstance(st, ast.AnnAssign) and isinstance(st.target, ast.Name) and st.target.id == "tau_0"]
+        if len(ifs) != 1 or t0 != ["(R * Y) ** (1.0 / n)"]:
+            raise Untranslatable("_calculate_tau_gamma: expected `tau_0 = (R * Y) ** (1.0 / n)` and one branch on isclose(abs(n), 1.0, atol=0.01)")
+        a, b = ifs[0].body, ifs[0].orelse
+        if not (len(a) == 1 and len(b) == 1 and all(isinstance(x, ast.AugAssign) and isinstance(x.op, ast.Add) and ast.unparse(x.target) == "gamma" for x in (a[0], b[0]))):
+            raise Untranslatable("_calculate_tau_gamma: expected `gamma += ...` in both branches")
+        out.append(f"/-- `_calculate_tau_gamma`: contribution of an (RC) element (|n| within 0.01 of 1, n >= 0) -/\ndef mrq_gamma_rc : E := {py2e(a[0].value, {'?n < 0.0': False})}")
+        out.append(f"/-- `_calculate_tau_gamma`: contribution of an (RQ) element -/\ndef mrq_gamma_rq : E := {py2e(b[0].value, {})}")
+        out.append(f"/-- `_calculate_tau_gamma`: the characteristic time constant -/\ndef mrq_tau0 : E := {py2e(ast.parse(t0[0], mode='eval').body, {})}")
+        names_out.append("mrq_gamma")
+    except Untranslatable as ex:
+        untranslatable.append({"what": "DRT kernels", "detail": str(ex)})
+
+
 def translate_kkauto(out, names_out, untranslatable):
     """C10: the noise <-> pseudo chi-squared conversion of kramers_kronig/utility.py and the standard deviation of
     the mock data's noise model (`sd = noise / 100 * abs(Z_ideal)` in `_add_noise`)."""
@@ -425,6 +483,9 @@ def generate(gen_dir, untranslatable):
     zh = []
     translate_zhit(out, zh, untranslatable)
     out.append("def zhitKernels : List String := [" + ", ".join(f'"{n}"' for n in zh) + "]")
+    dk = []
+    translate_drt(out, dk, untranslatable)
+    out.append("def drtKernels : List String := [" + ", ".join(f'"{n}"' for n in dk) + "]")
     fw = []
     translate_fit(out, fw, untranslatable)
     out.append("def fitWeights : List String := [" + ", ".join(f'"{n}"' for n in fw) + "]")
